@@ -57,21 +57,25 @@ var simPinCount uint64
 //go:linkname simGetPinCount runtime.simGetPinCount
 func simGetPinCount() uint64 { return simPinCount }
 
+// simNextRand returns the value pinned for the current scheduler step. It is a
+// constant per step, not a sequence: draws made by lazily initialised process-wide
+// state (which happen in the first run that reaches them and never again) must not
+// shift the values later draws of the same step see.
+//
 //go:nosplit
 func simNextRand() uint64 {
 	simPinCount++
-	x := simPinRand
-	x ^= x << 13
-	x ^= x >> 7
-	x ^= x << 17
-	if x == 0 {
-		x = 0x9e3779b97f4a7c15
-	}
-	simPinRand = x
-	return x * 0x2545F4914F6CDD1D
+	return simPinRand
 }
 """
     q = os.path.join(OUT, "rand.go"); open(q, "w").write(s); replace[p] = q
+    # --- internal/sync/mutex.go: starvation mode is decided by wall-clock waiting time
+    # (> 1 ms), which is not a function of the schedule. Pin it off: normal mode only.
+    p = os.path.join(GOROOT, "src/internal/sync/mutex.go")
+    s = open(p).read()
+    s = must_replace(s, "starving = starving || runtime_nanotime()-waitStartTime > starvationThresholdNs",
+        "starving = starving || (false && runtime_nanotime()-waitStartTime > starvationThresholdNs)", "mutex starvation")
+    q = os.path.join(OUT, "mutex.go"); open(q, "w").write(s); replace[p] = q
     # --- extra replacements produced by simgen (json map file -> file)
     extra = os.path.join(OUT, "extra.json")
     if os.path.exists(extra):
